@@ -10,6 +10,7 @@ exit 0 = held on everything explored; 1 = VIOLATION line(s) printed; 2 = inconcl
 import array
 import hashlib
 import json
+import re
 import os
 import shutil
 import subprocess
@@ -37,25 +38,25 @@ def log(*a):
     print(*a, flush=True)
 
 
-def gen_overlay():
-    """Files injected into /repo at build time (never written there)."""
-    sys.path.insert(0, os.path.join(VERIF, "overlay"))
-    try:
-        import genoverlay  # type: ignore
-    except ImportError:
+def gen_overlay(variant):
+    """Files substituted for /repo files at build time (never written into /repo); see overlay/genoverlay.py."""
+    if not variant:
         return None
-    return genoverlay.generate(REPO, os.path.join(BUILD, "overlay"))
+    sys.path.insert(0, os.path.join(VERIF, "overlay"))
+    import genoverlay  # type: ignore
+    return genoverlay.generate(REPO, os.path.join(BUILD, "overlay"), variant)
 
 
-def build(prop, plan):
+def build(prop, plan, variant="", race=False):
     pkg = prop.lower()
     os.makedirs(os.path.join(BUILD, "bin"), exist_ok=True)
-    out = os.path.join(BUILD, "bin", pkg + (".race" if plan.get("race") else "") + ".test")
+    race = race or plan.get("race")
+    out = os.path.join(BUILD, "bin", pkg + ("." + variant if variant else "") + (".race" if race else "") + ".test")
     cmd = ["go", "test", "-c", "-o", out, "-tags", "verif", "-vet=off"]
-    ov = gen_overlay()
+    ov = gen_overlay(variant)
     if ov:
         cmd += ["-overlay", ov]
-    if plan.get("race"):
+    if race:
         cmd += ["-race"]
     cmd += ["./" + pkg + "/"]
     t0 = time.time()
@@ -104,7 +105,18 @@ def main():
     plan = json.load(open(os.path.join(HARNESS, pkg, "plan.json")))
     seed = int(os.environ.get("VERIF_SEED", "1") or "1")
     t_start = time.time()
-    binary, build_s = build(prop, plan)
+    binaries = {}
+    build_s = 0.0
+
+    def binary_for(variant, race=False):
+        nonlocal build_s
+        key = (variant, bool(race))
+        if key not in binaries:
+            b, dt = build(prop, plan, variant, race)
+            binaries[key] = b
+            build_s += dt
+        return binaries[key]
+
     outdir = os.path.join(BUILD, "out", prop)
     shutil.rmtree(outdir, ignore_errors=True)
     os.makedirs(os.path.join(outdir, "work"), exist_ok=True)
@@ -113,7 +125,13 @@ def main():
     if mode == "replay":
         path = os.path.abspath(sys.argv[3])
         env = goenv()
-        env.update({"VERIF_REPLAY": path, "VERIF_KF": kf_path})
+        # replay files are named <tier>-<seed>-<Test>[@variant]-<shard>.json
+        m = re.search(r"@([a-z0-9]+)-\d+\.json$", os.path.basename(path))
+        variant = m.group(1) if m else ""
+        tdef = [t for t in plan["tests"] if t.get("variant", "") == variant]
+        env.update({"VERIF_REPLAY": path, "VERIF_KF": kf_path, "VERIF_VARIANT": variant})
+        env.update((tdef[0].get("env") or {}) if tdef else {})
+        binary = binary_for(variant, bool(tdef and tdef[0].get("race")))
         r = subprocess.run([binary, "-test.run", "^TestReplay$", "-test.v"], cwd=os.path.join(outdir, "work"), env=env)
         sys.exit(1 if r.returncode != 0 else 0)
 
@@ -128,14 +146,17 @@ def main():
         shards = t.get("shards", {}).get(tier, 1 if tier == "quick" else 16)
         n = t.get(tier, 0)
         for s in range(shards):
-            tag = "%s-%d" % (t["name"], s)
+            variant = t.get("variant", "")
+            disp = t["name"] + ("@" + variant if variant else "")
+            tag = "%s-%d" % (disp, s)
+            binary = binary_for(variant, t.get("race"))
             cmd = [binary, "-test.run", "^%s$" % t["name"], "-test.timeout", "0", "-test.count", "1"]
             if t.get("kind", "rapid") == "rapid":
                 per = max(1, n // shards)
                 cmd += ["-rapid.checks=%d" % per, "-rapid.seed=%d" % derive_seed(seed, prop, t["name"], s),
                         "-rapid.nofailfile", "-rapid.shrinktime=%s" % ("20s" if tier == "quick" else "60s")]
             jobs.append({
-                "test": t["name"], "shard": s, "cmd": cmd, "cwd": os.path.join(outdir, "work"),
+                "test": disp, "shard": s, "cmd": cmd, "cwd": os.path.join(outdir, "work"),
                 "requested": (max(1, n // shards) if t.get("kind", "rapid") == "rapid" else None),
                 "timeout": t.get("timeout", {}).get(tier, 900 if tier == "quick" else 5400),
                 "prefix": (["bash", "-c", "ulimit -v %d; exec \"$@\"" % (t["ulimit_v_kb"]), "--"] if t.get("ulimit_v_kb") else []),
@@ -145,7 +166,7 @@ def main():
                     "VERIF_REPLAY_OUT": os.path.join(replay_dir, "%s-%d-%s.json" % (tier, seed, tag)),
                     "VERIF_KF": kf_path, "VERIF_TIER": tier, "VERIF_SEED": str(seed),
                     "VERIF_SHARD": str(s), "VERIF_NSHARDS": str(shards), "VERIF_N": str(n),
-                    "VERIF_REPO": REPO,
+                    "VERIF_REPO": REPO, "VERIF_VARIANT": variant, **(t.get("env") or {}),
                 },
             })
     par = min(NCPU, len(jobs)) or 1
@@ -163,7 +184,8 @@ def main():
         except Exception:
             st = None
         if st:
-            for tn, ts in st["tests"].items():
+            for tn0, ts in st["tests"].items():
+                tn = j["test"] if tn0 == j["test"].split("@")[0] else tn0  # display name carries the build variant
                 a = agg.setdefault(tn, {"evaluations": 0, "classes": {}, "samples": [], "known": {}, "quarantined_cases": 0,
                                         "rule": ts.get("rule", ""), "exhaustive": True})
                 a["evaluations"] += ts["evaluations"]
@@ -176,7 +198,7 @@ def main():
                 for smp in (ts.get("samples") or []):
                     if len(a["samples"]) < 3:
                         a["samples"].append(smp)
-                hp = j["env"]["VERIF_OUT"] + "." + tn + ".hashes"
+                hp = j["env"]["VERIF_OUT"] + "." + tn0 + ".hashes"
                 hs = hashes.setdefault(tn, set())
                 try:
                     arr = array.array("Q")
@@ -215,7 +237,7 @@ def main():
             inconclusive.append("%s shard %d: exit %s without attributable failure:\n%s" % (j["test"], j["shard"], j["rc"], tail))
             continue
         if j["requested"] and st:
-            got = st["tests"].get(j["test"], {}).get("evaluations", 0)
+            got = st["tests"].get(j["test"].split("@")[0], {}).get("evaluations", 0)
             if got < j["requested"]:
                 inconclusive.append("%s shard %d: ran %d of %d requested cases" % (j["test"], j["shard"], got, j["requested"]))
 
